@@ -705,27 +705,20 @@ func GetVariantsPair(ref, query []byte, refID, queryID string, idx int, cdsregio
 		return variants[i].Position < variants[j].Position || (variants[i].Position == variants[j].Position && variants[i].Changetype < variants[j].Changetype)
 	})
 
-	// there might be dups if there was a snp in the region of a join()
+	// there might be dups if there was a snp in the region of a join(), or if features that share a name also
+	// share a codon (with a record of another feature sorted between them): keep the first of each
 	finalVariants := make([]Variant, 0)
-	previousVariant := Variant{}
-	for i, v := range variants {
-		if i == 0 {
-			// don't want deletions that abut the start of the sequence
-			if v.Changetype == "del" && v.Position == 0 {
-				continue
-			}
-			finalVariants = append(finalVariants, v)
-			previousVariant = v
-			continue
-		}
+	seen := make(map[Variant]bool)
+	for _, v := range variants {
+		// don't want deletions that abut the start of the sequence
 		if v.Changetype == "del" && v.Position == 0 {
 			continue
 		}
-		if v == previousVariant {
+		if seen[v] {
 			continue
 		}
+		seen[v] = true
 		finalVariants = append(finalVariants, v)
-		previousVariant = v
 	}
 
 	// and we're done
